@@ -85,6 +85,12 @@ def check_text(pest, rep, text: str, rows) -> int:
                 else:
                     cands = [no_phantom(lines_for(b)), lines_for(b - 1)]
                 ok = got_lines in cands
+                # the caller owns what lines() returns: editing that list must not change what the next call returns
+                first = sp.lines()
+                keep = list(first)
+                first.append("edited by the caller")
+                if first[:-1] != keep or sp.lines() != keep:
+                    bad(f"Span({a},{b}).lines() returns {sp.lines()} after the caller edited the list a previous call had returned ({keep})", span=[a, b])
                 if not ok:
                     bad(f"Span({a},{b}).lines() = {got_lines}, lines touched = {lines_for(b)} (or {lines_for(max(a, b - 1))})", span=[a, b], observed=got_lines)
             except Exception as e:  # noqa: BLE001
@@ -117,10 +123,12 @@ def run(tier: str) -> int:
     maxlen = 6 if not thorough else 8
     cfg = write_cfg("LineCol", "Spec", {"MaxLen": maxlen, "Alphabet": "{1, 2, 3}", "NL": 3}, invariants=["Bijective", "Inverse", "Monotone", "LineBounds", "Emit"])
     count = 0
+    tables: dict[tuple, list] = {}
 
     def on_line(line):
         nonlocal count
         rec = C.decode_printt(line)
+        tables[tuple(rec["t"])] = rec["rows"]
         text = "".join(SYM[c] for c in rec["t"])
         n = check_text(pest, rep, text, rec["rows"])
         # the two symbols that are not the line break are ORDINARY characters: the same table must hold when they are
@@ -138,6 +146,37 @@ def run(tier: str) -> int:
     rep.add_tlc(st, f"LineCol MaxLen={maxlen}: Bijective, Inverse, Monotone, LineBounds")
     rep.traces += count
     rep.distinct_count += count
+
+    # one temporary text after another (an application reports one position per document and drops the document): build a
+    # text, ask for ONE position, drop it, build the next text of the same length, ask for a position at or after the last
+    # one - nothing may be carried over from a text that is gone, even if the new one sits at the same address
+    from pest import Position as _Position  # noqa: PLC0415
+
+    rnd2 = random.Random(C.SEED + 5)
+    keys = [k for k in tables if len(k) >= 3]
+    by_len: dict[int, list] = {}
+    for k in keys:
+        by_len.setdefault(len(k), []).append(k)
+    carried = 0
+    for _ in range(4000 if not thorough else 40000):
+        n = rnd2.choice(list(by_len))
+        k1, k2 = rnd2.choice(by_len[n]), rnd2.choice(by_len[n])
+        p1 = rnd2.randrange(n + 1)
+        p2 = rnd2.randrange(p1, n + 1)
+        sym = rnd2.choice([SYM] + ALT_SYMS)
+        t1 = "".join(sym[c] for c in k1)
+        _Position(t1, p1).line_col()
+        del t1
+        t2 = "".join(sym[c] for c in k2)
+        got = tuple(_Position(t2, p2).line_col())
+        want = tuple(tables[k2][p2][:2])
+        carried += 1
+        if got != want:
+            rep.violation({"kind": "linecol-carried-over", "text": t2, "offset": p2, "expected": list(want), "observed": list(got), "previous_text": "".join(sym[c] for c in k1), "previous_offset": p1},
+                          f"Position({t2!r}, {p2}).line_col() = {got}, LineCol = {want}, when asked right after a position in another text of the same length that has been dropped")
+        del t2
+    rep.evaluations += carried
+    rep.extra["one_position_per_temporary_text"] = carried
 
     # code -> spec on long and non-ASCII texts
     from pest import Position  # noqa: PLC0415
